@@ -528,6 +528,9 @@ var casesASGiB uint64 = 12
 // casesDeadline is the per-input CPU deadline of the first pass (the confirmation pass has 120 s).
 var casesDeadline = "20s"
 
+// confirmDeadline is the CPU deadline of the run of one input on its own.
+var confirmDeadline = "120s"
+
 // sigOf groups the cases of a plan: when two inputs of one group have overrun their deadline (also when run alone), the rest of the group is
 // not run (a change that makes a whole group hang would otherwise cost its deadline per input).
 func sigOf(c *hcase) string {
@@ -571,7 +574,7 @@ func runCases(casesPath string, n int, dirv string, workersv int) []*houtcome {
 		of := fmt.Sprintf("%s/confirm-%d.txt", *dir, i)
 		os.Remove(of)
 		defer os.Remove(of)
-		cmd := exec.Command(self, "hostile-worker", "-cases", casesPath, "-from", fmt.Sprint(i), "-to", fmt.Sprint(i+1), "-out", of, "-deadline", "120s", "-as", fmt.Sprint(casesASGiB))
+		cmd := exec.Command(self, "hostile-worker", "-cases", casesPath, "-from", fmt.Sprint(i), "-to", fmt.Sprint(i+1), "-out", of, "-deadline", confirmDeadline, "-as", fmt.Sprint(casesASGiB))
 		err := cmd.Run()
 		b, _ := os.ReadFile(of)
 		mu.Lock()
